@@ -27,7 +27,7 @@ import NumbersModel.Props.C04
 import NumbersModel.Props.C01
 import NumbersModel.Lemmas.StringTable
 import NumbersModel.Lemmas.TablePipeline
-import NumbersModel.Lemmas.Document
+import NumbersModel.Lemmas.DocumentDemo
 namespace NumbersModel.Props.C02
 open NumbersModel NumbersModel.CellRecord NumbersModel.StringTable
 
@@ -263,52 +263,13 @@ theorem merge_state_resave (m : Merge.MMap) (h : MergeOK m) :
 
 /-! #### non-vacuity: two sheets, three tables, a merge, a shared formula, a currency format, a string cell -/
 
-def demoTree : DocTree.Doc :=
-  { objects := [(1, .document [2, 3]), (2, .sheet "One".toList [10, 11]), (3, .sheet "Two".toList [12]),
-                (20, .tableModel "T1".toList true 1 1), (21, .tableModel "T2".toList true 1 0),
-                (22, .tableModel "T3".toList false 0 0),
-                (11, .tableInfo 2 21 0 false 0 0), (10, .tableInfo 2 20 0 false 0 0), (12, .tableInfo 3 22 0 true 5 7)],
-    files := [("Index/Document.iwa".toList, some [1, 2, 3, 10, 11, 12]), ("preview.jpg".toList, none),
-              ("Index/Tables/DataList.iwa".toList, some [22, 21, 20])],
-    maxId := 1000000 }
-
-def demoCur : FormatDispatch.Fmt := { formatType := 257, decimalPlaces := 2, currencyCode := "EUR".toList, showThousands := true }
-
-/-- `=A1+B1` style: two reference nodes and an addition; the reference texts come from the host (`demoEnv.refText`) -/
-def demoFormula : List Formula.Node := [{ ty := 36 }, { ty := 36 }, { ty := 1 }]
-
-def demoT1 : TableSt :=
-  { grid := [[⟨.currency, List.replicate 16 7, [], none, { curFmt := some 5, formula := some 1 }⟩, ⟨.merged, [], [], none, {}⟩],
-             [⟨.text, [], "x".toList, none, {}⟩, ⟨.number, List.replicate 16 3, [], none, { formula := some 1 }⟩]],
-    mmap := [((0, 0), .anchor 1 2), ((0, 1), .ref 0 0 0 1)],
-    formulas := [(1, demoFormula)], formats := [(5, demoCur)], rich := [] }
-
-def demoT2 : TableSt :=
-  { grid := [[⟨.text, [], "x".toList, some 4, {}⟩], [⟨.rich, [], [], none, { rich := some 2 }⟩]], mmap := [],
-    formulas := [], formats := [], rich := [(2, 77)] }
-
-def demoT3 : TableSt :=
-  { grid := [[⟨.date, List.replicate 8 9, [], none, { dateFmt := some 2 }⟩, ⟨.empty, [], [], none, {}⟩]], mmap := [],
-    formulas := [], formats := [(2, { dateTimeFormat := "yyyy".toList })], rich := [] }
-
-def demoDoc : Doc := { tree := demoTree, tables := [(22, demoT3), (20, demoT1), (21, demoT2)] }
-
-def demoNum : FormatDispatch.NumVal :=
-  { repr := ⟨false, 12345, -1⟩, times100 := ⟨false, 123450, 0⟩, sci := ⟨false, 12345, -1⟩, ratio := (2469, 2),
-    fracProduct := fun _ => (false, 1, 2), custom := fun _ => (⟨⟨false, 12345, -1⟩, ⟨false, 12345, -1⟩⟩, ⟨⟨false, 123450, 0⟩, ⟨false, 123450, 0⟩⟩) }
-
-def demoEnv : Env :=
-  { fenv := ⟨Char.isAlpha, [48], 'x'⟩,
-    interp := fun _ _ _ v =>
-      match v.kind with
-      | .number => FormatDispatch.Cell.ofNumber demoNum "1234.5".toList
-      | .currency => { FormatDispatch.Cell.ofNumber demoNum "1234.5".toList with currencyType := true }
-      | .text => { FormatDispatch.Cell.ofText v.text with stringText := v.text }
-      | .date => FormatDispatch.Cell.ofDate ⟨2020, 2, 29, 13, 5, 7, 0⟩ "2020-02-29 13:05:07".toList
-      | .empty => { kind := .empty }
-      | .rich => { kind := .richText }
-      | _ => { kind := .merged },
-    refText := fun _ r c i => [Char.ofNat (65 + c + i), Char.ofNat (49 + r)] }
+/-- **the hypotheses are satisfiable** (Lemmas/DocumentDemo.lean): the demo document — two sheets, three tables, a merge, a
+    shared formula, a currency format, string cells, a rich cell, a date; store order ≠ file order — is `Opened` and
+    `Writable` … -/
+theorem hypotheses_satisfiable : Opened demoDoc ∧ Writable demoDoc := demo_opened
+/-- … so the theorems apply to it -/
+example : resaveDump demoEnv demoDoc = dump demoEnv demoDoc :=
+  document_resave_identity demoDoc demo_opened.1 demo_opened.2 demoEnv
 
 /-- the dump of the demo document is a value (no exception) … -/
 example : (dump demoEnv demoDoc).isOk = true := by decide +kernel
